@@ -455,6 +455,9 @@ def run(ctx):
             r.ok("consumed", "never consumes past the last delivered line: max(context start, last_line_visited)", fn=f)
         else:
             r.bad("consumed", "roll's consumed amount no longer respects last_line_visited", fn=f, construct="consumed")
+    with ctx.rule("C03.CLEAR", "a searcher's reused buffer starts every input at offset 0 (shared with C02.REFILL|clear)", floor=2, kind="RW") as r:
+        from . import c02
+        c02.clear_rule(ctx, r)
     with ctx.rule("C03.COUNT", "incremental line counting: count [last_line_counted, upto) once, then advance the mark", floor=3, kind="GUARD/RW") as r:
         f = facts.fn(CORE + "::count_lines")
         eb = ExprBuilder(f)
